@@ -43,7 +43,7 @@ var c16Nums = []string{"0", "-0", "1", "-1", "2", "0.4", "0.5", "0.6", "1.5", "2
 
 var c16Other = []string{`null`, `true`, `false`, `""`, `"abc"`, `"true"`, `"false"`, `"t"`, `"F"`, `"yes"`, `"NO"`, `"on"`, `"off"`, `"1"`, `"0"`, `" 1"`, `"1 "`, `"+1"`, `"1e2"`, `"0x10"`, `"NaN"`, `"Infinity"`, `"-inf"`, `"1_0"`, `"tr"`, `"o"`, `"tree"`, `"truE"`, `"trux"`, `"falsy"`, `"fall"`, `"yess"`, `"nope"`, `"nn"`, `"onn"`, `"offf"`, `"11"`, `"00"`, `"01"`, `"2"`, `"-1"`, `"truee"`, `"ye s"`, `"ok"`,
 	`[[1,2]]`, `[[[1]]]`, `[[]]`, `[1,[2]]`, `[["3"]]`, `[[true]]`,
-	`"010"`, `"-010"`, `"0000000100"`, `"08"`, `"-009"`, `"02147483647"`, `"02147483648"`, `"00.50"`, `"007.5"`, `"0e0"`, `"00"`, `"-0"`, `"09223372036854775807"`, `"0o17"`, `"0b11"`, `"1_000"`,
+	`"010"`, `"-010"`, `"0000000100"`, `"08"`, `"-009"`, `"02147483647"`, `"02147483648"`, `"00.50"`, `"007.5"`, `"0e0"`, `"00"`, `"-0"`, `"09223372036854775807"`, `"000000000042"`, `"0000000000002147483647"`, `"-0000000000002147483648"`, `"-009223372036854775808"`, `"000000000000000000000042"`, `"00000000000000000000009223372036854775807"`, `"0o17"`, `"0b11"`, `"1_000"`,
 	`[]`, `[1]`, `[1,"2",[3]]`, `{}`, `{"a":1}`, `"2023-08-15"`, `"12:34:56"`, `"2023-08-15T12:34:56+01:00"`}
 
 var c16Methods = []string{"type", "size", "double", "number", "decimal", "integer", "bigint", "boolean", "string", "abs", "floor", "ceiling", "keyvalue"}
